@@ -49,6 +49,20 @@ Storable(c, m) == {N \in Candidates(m) : Fits(c, N)}
 (* what the stored N reads back as *)
 ReadsBack(c, N) == IF N_(c) > 1 /\ N - R_(c) = MaxRaw(c) THEN "missing" ELSE "value"
 
+(* ---- 203YYY: a new reference value is a sign-and-magnitude field of YYY bits -------------------- *)
+(* it holds v exactly when |v| <= 2^(YYY-1) - 1; anything else must be refused - the magnitude must not spill
+   into the sign bit, and the value must not be reduced modulo anything *)
+RefFits(y, v) == Abs(v) <= 2 ^ (y - 1) - 1
+RefValues(y) == LET h == 2 ^ (y - 1) IN
+    UNION {{x, 0 - x} : x \in {0, 1, h - 2, h - 1, h, h + 1, 2 * h - 2, 2 * h - 1, 2 * h, 2 * h + 1}}
+RefWidths == {2, 3, 10, 16}
+RECURSIVE SetToSeqQ(_)
+SetToSeqQ(S) == IF S = {} THEN <<>> ELSE LET x == CHOOSE x \in S : TRUE IN <<x>> \o SetToSeqQ(S \ {x})
+RefTable == SetToSeqQ({[y |-> y, v |-> v, fits |-> RefFits(y, v)] : y \in RefWidths, v \in UNION {RefValues(y) : y \in RefWidths}})
+RefFitsIsSignMagnitude == \A y \in RefWidths : \A v \in RefValues(y) : RefFits(y, v) <=> (v \in (1 - 2 ^ (y - 1))..(2 ^ (y - 1) - 1))
+ASSUME RefFitsIsSignMagnitude
+ASSUME PrintT(ToJson([reftable |-> RefTable]))
+
 VARIABLES ci, m
 vars == <<ci, m>>
 
